@@ -23,7 +23,7 @@ RULE = (
 ASSUMPTIONS = ["hyper-parameter gradients are compared with Richardson central differences of the real builder at 1e-6 of the matrix scale"]
 TIMEOUT = {"quick": 300, "thorough": 1800}
 REQUIRED = {"post:covariance_and_gradients": 100, "cases:cp3plus": 20, "cases:d>=2": 50, "cases:sum": 30,
-            "post:mean_and_gradients": 30, "gradient_entries_checked": 500, "operand_reuse_checks": 20, "cases:large_point_set": 8, "cases:far_from_origin": 40}
+            "post:mean_and_gradients": 30, "gradient_entries_checked": 500, "operand_reuse_checks": 20, "cases:large_point_set": 8, "cases:far_from_origin": 40, "cases:abrupt_change_points": 20}
 
 
 def jobs(tier, seed):
@@ -47,11 +47,19 @@ def run_job(job, rec):
     for c in range(job["n_cases"]):
         d = int(rng.choice([1, 1, 2, 2, 3]))
         n = int(rng.choice([2, 3, 5, 8, 12, 18, 25]))
-        spec = G.fix_axes(G.random_spec(rng), rng, d)
+        spec = G.fix_axes(G.random_spec(rng, cp_noise=True), rng, d)
         # point clouds far from the origin (not with change-points: their location parameter would need steps below its rounding)
         far = bool(rng.random() < 0.2) and G.count_cp_kernels(spec) == 0
         x = G.random_points(rng, n, d, far=far)
         theta = G.random_theta(spec, rng, x, y_scale=10.0 ** rng.uniform(-2, 2))
+        sharp = False
+        if G.count_cp_kernels(spec) and rng.random() < 0.25:
+            # abrupt change-points: transition widths of 1e-4.5 .. 1e-2.8 of the axis range (points sit hundreds to thousands of widths away)
+            theta = np.array(theta, dtype=float)
+            for pos, width in cp_positions(spec, n, d, x):
+                theta[pos + 1] = width * 10.0 ** rng.uniform(-4.5, -2.8)
+            sharp = True
+            rec.count("cases:abrupt_change_points")
         via_add = [False, "left", "right", "balanced"][int(rng.integers(4))]   # how a sum is put together
         share = bool(rng.random() < 0.25)                                        # one object per kernel class, used for every term of that class
         desc = G.describe(spec)
@@ -152,6 +160,8 @@ def run_job(job, rec):
         for pos, width in cp_positions(spec, n, d, x):
             h[pos] = 1e-4 * width
             h[pos + 1] = 1e-4 * width
+            if sharp:
+                h[pos] = h[pos + 1] = 1e-3 * theta[pos + 1]
         num = num_grad(lambda t: np.asarray(K.build_covariance(t), float), theta, h)
         for i in range(npar):
             g = np.asarray(grads[i], float)
@@ -301,6 +311,12 @@ def run_job(job, rec):
         pts = np.array([float(np.ravel(M(x[i], tm))[0]) if np.ndim(M(x[i], tm)) else float(M(x[i], tm)) for i in range(n)])
         rec.check(bool(np.abs(pts - ref_m).max() <= 1e-11 * ms), "mean-call-vs-build",
                   lambda: f"{name} mean(q) at the data points differs from build_mean by {np.abs(pts - ref_m).max():.3e}", mctx)
+        # all the data points in one call
+        allp = guarded(M, x, tm)
+        rec.count("post:mean_call_on_a_set_of_points")
+        okb = (not isinstance(allp, Raised)) and np.shape(allp) in ((), (n,)) and bool(np.abs(np.broadcast_to(np.asarray(allp, float), (n,)) - ref_m).max() <= 1e-11 * ms)
+        rec.check(okb, "mean-call-on-a-set-of-points",
+                  lambda: f"{name} mean(x, theta) evaluated on the {n} data points in one call gives {allp!r}; build_mean gives {bm!r}", mctx)
         labs = list(getattr(M, "hyperpar_labels", []))
         rec.check(len(labs) == len(tm), "mean-label-count", f"{name}: {len(labs)} labels for {len(tm)} parameters", mctx)
 
